@@ -41,6 +41,8 @@ def cases(tier, seed):
         for sch in ((2, 1, 2), (3, 1, 2), (3, 3, 1), (4, 2, 1)) if tier == 'quick' else ((2, 1, 2), (3, 1, 2), (3, 3, 1), (4, 2, 1), (3, 1, 2), (5, 5, 1)):
             out.append(('e3/nt=%d/%s' % (nt, 'x'.join(map(str, sch))), ('e3', nt, sch)))
     out.append(('SCML/int_points/array', ('intpts', seed)))
+    for dsn in (['S3u', 'S5'] if tier == 'quick' else data.THOROUGH):
+        out.append(('generated_bases/%s' % dsn, ('genbasis', dsn, seed)))
     for dsn in (['S2', 'S3u', 'S5'] if tier == 'quick' else data.THOROUGH):
         for name, bases in (('SCML', ['triplet_diffs', 'array']), ('SCML_Supervised', ['triplet_diffs', 'lda', 'array'])):
             for basis in bases:
@@ -148,6 +150,39 @@ def run_case(spec):
                     stats={'e3_complete_trees': int(st['complete']), 'e3_distinct_weight_outcomes': len(outcomes)},
                     sample={'kind': 'all draw programs', 'triplets': nt, 'max_iter': mi, 'output_iter': oi, 'batch_size': bs,
                             'programs': evals, 'distinct_weight_outcomes': len(outcomes)})
+    if spec[0] == 'genbasis':
+        # generated bases have n_basis unit-norm rows, for a sweep of n_basis values and seeds
+        _, dsn, seed0 = spec
+        ds = data.dataset('R', seed0) if dsn == 'R' else data.dataset(dsn)
+        d = ds.d
+        ncls = len(ds.sizes)
+        num_eig = min(ncls - 1, d)
+        for name, basis_opt, nbs in (('SCML', 'triplet_diffs', (d, 2 * d + 1, 3 * d, 5 * d)),
+                                     ('SCML_Supervised', 'triplet_diffs', (d, 2 * d + 1, 4 * d)),
+                                     ('SCML_Supervised', 'lda', (2, d + 1, 2 * d + 2, 3 * d + 1, 2 * num_eig * 3))):
+            for nb in nbs:
+                for seed in (0, 1, 2):
+                    kw = dict(basis=basis_opt, n_basis=int(nb), max_iter=4, output_iter=2, batch_size=2, random_state=seed)
+                    est = ml.SCML(**kw) if name == 'SCML' else ml.SCML_Supervised(k_genuine=2, k_impostor=2, **kw)
+                    with Spy() as spy, warnings.catch_warnings():
+                        warnings.simplefilter('ignore')
+                        try:
+                            est.fit(ds.trip.copy()) if name == 'SCML' else est.fit(ds.X.copy(), ds.y.copy())
+                        except Exception as e:
+                            viol.append(V(name + '.fit', 'raises', 'basis=%s n_basis=%d raised %s: %s' % (basis_opt, nb, type(e).__name__, str(e)[:100]),
+                                          [basis_opt]))
+                            continue
+                    basis, w = spy.calls[-1]
+                    evals += 1
+                    states += 1
+                    trans += 1
+                    norms = np.sqrt((basis ** 2).sum(1)) if basis.size else np.array([0.0])
+                    if basis.shape != (nb, d) or np.abs(norms - 1).max() > 1e-9:
+                        viol.append(V(name + '.fit', 'generated_basis', 'basis=%s, n_basis=%d: generated basis has shape %s and row norms in [%.6g, %.6g]'
+                                      % (basis_opt, nb, basis.shape, norms.min(), norms.max()), [basis_opt, 'n_basis=%d' % nb]))
+                    sigs.add((name, dsn, basis_opt, nb, seed))
+        return dict(evals=evals, sigs=sigs, viol=viol, states=states, transitions=trans,
+                    sample={'kind': 'generated bases', 'dataset': dsn, 'n_basis sweep': 'd .. 5d (triplet_diffs), 2 .. 3d+1 (lda)'})
     if spec[0] == 'intpts':
         # integer-typed points (int64 triplets / int64 X) with a REAL-valued basis: same M as for the float-typed copy
         ds = data.scaled(data.dataset('S3u'), 64.0)
